@@ -11,6 +11,10 @@
 (*   "patpart" pattern with a repeated wildcard against the tree in which one *)
 (*            of the two positions holds the wildcard identifier itself       *)
 (*   "plain"  nothing derived                                                 *)
+(*   "paff"   partial assignment: the source of an assignment to an identifier*)
+(*            of width >= 16 is a concatenation of one byte of the generated  *)
+(*            source and the same-position slice of the destination (the form *)
+(*            ExprAff builds for a sliced destination)                        *)
 EXTENDS IRDerive
 CONSTANTS MaxNodes, Ws, IdsPer, BinOps, UnOps, Rich, Kinds
 VARIABLES stack, nodes, aux
@@ -19,12 +23,17 @@ NoAux == [kind |-> "none"]
 IsAffStack == Len(stack) = 2 /\ stack[1].k \in {"id", "mem"} /\ stack[1].w = stack[2].w
 Tree == IF Len(stack) = 1 THEN stack[1]
         ELSE [k |-> "aff", w |-> stack[1].w, a |-> <<stack[1], stack[2]>>]
+PartialAffs(t) == LET d == t.a[1]  s == t.a[2]  w == d.w IN
+   {[t EXCEPT !.a = <<d, Gen!ComposeNode(Gen!SliceNode(s, 0, 8), Gen!SliceNode(d, 8, w))>>],
+    [t EXCEPT !.a = <<d, Gen!ComposeNode(Gen!SliceNode(d, 0, w - 8), Gen!SliceNode(s, w - 8, w))>>]}
 Complete == Len(stack) = 1 \/ IsAffStack
 Init == Gen!Init /\ aux = NoAux
 Build == aux = NoAux /\ Gen!Next /\ UNCHANGED aux
 Derive == /\ aux = NoAux /\ Complete /\ UNCHANGED <<stack, nodes>>
           /\ \E kd \in Kinds :
                CASE kd = "plain" -> aux' = [kind |-> "plain", e |-> Tree]
+                 [] kd = "paff" -> Tree.k = "aff" /\ stack[1].k = "id" /\ stack[1].w >= 16 /\ \E pa \in PartialAffs(Tree) :
+                        aux' = [kind |-> "plain", e |-> pa]
                  [] kd = "mut" -> \E f \in Mutations(Tree) :
                         aux' = [kind |-> "mut", e |-> Tree, f |-> f,
                                 g |-> LET gs == Mutations(f) \ {Tree} IN IF gs = {} THEN f ELSE CHOOSE x \in gs : TRUE]
